@@ -11,7 +11,7 @@ P = {
    text="Every frame from complete sweeps of each field (all 65536 addresses, all 256 types, all 256 lengths, all byte values) and 2e5/2e7 random frames is encoded and decoded by the real codec while a hand-written Intel-HEX codec checks every observable (bytes, byte sum, CRLF variant, decoded frame, accessors, owned vs borrowed, Data::try_new bound). Held-on-observed, not a proof: the product space is sampled, each field is swept completely.",
    note="Trusted: the reference codec (harness/src/refs.rs, ~80 lines, no shared code); the checked build profile."),
  "C02": dict(cat="fault_enumeration", sec="4/C02", tech="runtime monitoring: exhaustive single-fault injection on wire strings, Err-or-original oracle",
-   text="For each base frame every single-character substitution (all 256 values at every position), deletion, duplication, adjacent transposition and proper prefix is decoded by the real decoder; the oracle accepts only Err or the original frame. Wrong-length and wrong-checksum strings of valid shape must be rejected with the matching error kind. The fault space per base frame is enumerated completely; base frames are sampled.",
+   text="For each base frame every single-character substitution (all 256 values at every position), deletion, duplication, adjacent transposition and proper prefix is decoded by the real decoder; the oracle accepts only Err or the original frame. Wrong-length and wrong-checksum strings of valid shape must be rejected with the matching error kind. The fault space per base frame is enumerated completely; base frames are hand-picked, seeded random and 'nested' frames whose suffix is itself a valid frame; generated wrong-length strings include over-long ones whose length field is right modulo 256.",
    note="Trusted: equality on Frame; reference encoder for base strings. Multi-error corruptions are outside the statement."),
  "C03": dict(cat="exploration", sec="4/C03", tech="runtime monitoring: differential oracle (independent parser) over exhaustive short strings + mutated long strings; Miri and ASan legs in the thorough tier",
    text="Every byte string over a 13-symbol structural alphabet up to length 6/7, every string over a 5-symbol alphabet up to length 11/13 (reaches accepted frames), single- and pair-perturbations of templates and generated strings up to 100 kB are decoded under catch_unwind and compared with an independent parser: result class, error fields, precedence, and re-encoding of accepted strings. Thorough adds a Miri leg and an AddressSanitizer leg over the decoder workload.",
@@ -32,13 +32,13 @@ P = {
    text="Prior states are the states reached by the C13 breadth-first explorer (all 13 protocol states, half-finished transfers, other types) and by abandoning real controller calls at every message index; from each the real Sign configures and sends page lists to the real VirtualSign, and the monitor checks the postconditions of the statement on the sign's accessors.",
    note="Trusted: VirtualSign accessors; forged blocks (genuine id, other dims) are outside the contract clause."),
  "C09": dict(cat="exploration", sec="4/C09", tech="runtime monitoring: online trace automaton over the recorded bus log",
-   text="A recording bus logs every message the real controller emits for many types/addresses/page lists/retry patterns; a trace checker verifies request-ack-before-data, per-item offsets 0,16,32.., chunk sizes, concatenation == item bytes, count == chunks since the request, query right after count, and the config block == the type's block.",
+   text="A recording bus logs every message the real controller emits for many types/addresses/page lists/retry patterns; a trace checker verifies request-ack-before-data, per-item offsets 0,16,32.., chunk sizes, concatenation == item bytes, count == chunks since the request, query right after count, the config block == the type's block, and nothing of a transfer after a request that was NOT acknowledged (on attempts 1, 2 and 3).",
    note="Trusted: the trace automaton; the harness's transcription of the 11 blocks."),
  "C10": dict(cat="fault_enumeration", sec="4/C10", tech="runtime monitoring: lockstep reference protocol machine inside an adversarial scripted bus, exhaustive reply-script DFS",
    text="Every reply script over a 44-symbol alphabet is enumerated depth-first to the natural end of each controller operation (polling bounded); at every step the message the real controller emits and its final outcome are compared with an independent flat-state-machine model of the documented protocol.",
    note="Trusted: refctl (Appendix C). Polling loops explored to a bound."),
  "C11": dict(cat="fault_enumeration", sec="4/C11", tech="runtime monitoring: model-free trace invariants on the same exhaustive reply-script conversations + random scripts",
-   text="Invariants I1-I5 (no unconfirmed success, fail-stop, <=3 attempts each after a failed report, own address on everything emitted, foreign replies never treated as own) are evaluated on every enumerated conversation and on random scripts, without consulting the reference machine.",
+   text="Invariants I1-I6 (no unconfirmed success, fail-stop, <=3 attempts each after a failed report, own address on everything emitted, foreign replies never treated as own, fail-stop inside the reset handshake) are evaluated on every enumerated conversation and on random scripts, without consulting the reference machine.",
    note="Trusted: the invariant checker only."),
  "C12": dict(cat="exploration", sec="4/C12", tech="runtime monitoring: catch_unwind around every delivery in a BFS over real sign states + long hostile random walks, checked and plain profiles",
    text="Every transition of the breadth-first state exploration and of long random/directed walks (all chunk lengths, arbitrary config blocks, counter saturation, lost/extra/duplicate chunks, buses of 1-3 signs, a trace-level log sink) runs under catch_unwind in a build with overflow checks on; a panic is the violation.",
@@ -50,22 +50,22 @@ P = {
    text="Buses of 1-4 real virtual signs receive interleaved histories; before/after snapshots and solo shadow copies check that only the addressed sign changes, replies match the solo sign and carry its address, absent addresses get silence, and unaddressed data affects only receiving signs.",
    note="Trusted: VirtualSign as its own solo reference."),
  "C15": dict(cat="fault_enumeration", sec="4/C15", tech="runtime monitoring: instrumented Read/Write doubles with scripted fragmentation and faults, conservation checker on the tape",
-   text="Streams of 1-4 lines with trailing bytes are read through a scripted reader: every composition of short streams, interrupts/errors/EOF at every call index; the checker verifies bytes consumed == first line exactly, result == decode(line), order, and error surfacing. Writes go through a scripted sink (short writes, interrupts, Ok(0), hard error at every index).",
+   text="Streams of 1-4 lines with trailing bytes are read through a scripted reader: every composition of short streams, interrupts/errors/EOF at every call index; the checker verifies bytes consumed == first line exactly, result == decode(line), order, and error surfacing; maximum-length (255-byte) frames back to back are included. Writes go through a scripted sink (short writes, interrupts, Ok(0), hard error at every index).",
    note="Trusted: the tape bookkeeping; reference codec."),
  "C16": dict(cat="fault_enumeration", sec="4/C16", tech="runtime monitoring: instrumented serial port event log + trace predicates, fault at every port call",
-   text="Every message kind with parameter sweeps goes through the real SerialSignBus on an instrumented port; the log checker verifies bytes written == reference encoding exactly once, a read iff a reply is due, exactly one line consumed, reply == reference classification, and errors for write/read failures and undecodable replies.",
+   text="Every message kind with parameter sweeps goes through the real SerialSignBus on an instrumented port; the log checker verifies bytes written == reference encoding exactly once, a read iff a reply is due, exactly one line consumed, reply == reference classification, and errors for write/read failures and undecodable replies. Sessions of several messages through ONE bus instance (write failure at every call index) catch anything a message leaves behind for the next one.",
    note="Trusted: refcodec + reftable."),
  "C17": dict(cat="exploration", sec="4/C17", tech="runtime monitoring: two-run transparency monitor (serial duplex path vs direct path) + bridge trace predicates",
-   text="Operation sequences run once through Sign->SerialSignBus->byte duplex->Odk->VirtualSignBus and once directly; success/failure, flip style and all sign observables must agree after every operation; the bridge log must forward exactly the decoded frames and write back exactly when the bus replied; undecodable lines give Communication errors without touching the bus.",
+   text="Operation sequences run once through Sign->SerialSignBus->byte duplex->Odk->VirtualSignBus and once directly; success/failure, flip style and all sign observables must agree after every operation; the bridge log must forward exactly the decoded frames, consume exactly the line that was sent and write back exactly when the bus replied; raw messages (incl. 255-byte frames) go down both paths; undecodable lines give Communication errors without touching the bus.",
    note="Trusted: the in-process duplex; only success/failure (not error class) compared across paths."),
  "C18": dict(cat="exploration", sec="4/C18", tech="runtime monitoring: monotonic timestamps at the port boundary; lower bounds on paced gaps, min-over-trials upper bound on unpaced gaps",
-   text="Instant timestamps taken inside the port's read/write and around process_message give the gaps; paced exchanges must show >=30 ms / >=100 ms on every trial; every other kind must show a minimum over trials below 30 ms. Lower bounds cannot false-alarm; the upper side uses min over repeated trials.",
+   text="Instant timestamps taken inside the port's read/write and around process_message give the gaps; paced exchanges (data chunks; in-progress reports received in answer to ANY request kind) must show >=30 ms / >=100 ms on every trial; every other sent kind and every other (request, reply) pair must show a minimum over trials below 30 ms. Lower bounds cannot false-alarm; the upper side uses min over repeated trials.",
    note="Trusted: std Instant monotonicity and thread::sleep never returning early."),
  "C19": dict(cat="exploration", sec="4/C19", tech="runtime monitoring: field-arithmetic oracle on all types + exhaustive (family,id) sweep + virtual sign as downstream consumer",
-   text="All 11 types: block length, round trip, field arithmetic vs dimensions, and a virtual sign configured with the block accepts exactly a page of dimensions(). All 65536 (family,id) pairs x tails and all lengths 0..=40 are decoded under catch_unwind and compared with the harness's own list.",
+   text="All 11 types: block length, round trip, field arithmetic vs dimensions, and a virtual sign configured with the block — freshly, after a failed configuration as any other type, or after another block in the same transfer — accepts exactly a page of dimensions(). All 65536 (family,id) pairs x tails and all lengths 0..=40 are decoded under catch_unwind and compared with the harness's own list.",
    note="Trusted: harness list of 11 (family,id,w,h)."),
  "C20": dict(cat="fault_enumeration", sec="4/C20", tech="runtime monitoring: instrumented serial device recording settings calls, exhaustive prior settings x fault points",
-   text="All 864 prior settings x 3 entry points x (no fault + 4 fault points) are executed on an instrumented device whose log survives the move into the constructor; final settings, applied timeout, error propagation and absence of data I/O are checked. Complete enumeration.",
+   text="All 864 prior settings x 3 entry points x (no fault + 4 fault points), and all 7 error kinds (incl. Interrupted) at every fault point, are executed on an instrumented device whose log survives the move into the constructor; final settings, applied timeout, error propagation and absence of data I/O are checked. Complete enumeration.",
    note="Trusted: the instrumented device."),
 }
 
